@@ -909,6 +909,9 @@ func (e *Env) evalCall(n *ast.CallExpr) Value {
 	case "wrap64":
 		// the value an int64 variable holds after the same arithmetic (for ghosts that mirror a machine counter)
 		return scalar(types.Typ[types.Int64], app("ws64", sInt, e.eval(n.Args[0]).one()))
+	case "mulwrap64":
+		// the value an int64 holds after a multiplication (true reduction modulo 2^64; wrap64 is the one-step form for sums)
+		return scalar(types.Typ[types.Int64], app("ms64", sInt, e.eval(n.Args[0]).one()))
 	case "min", "max":
 		a, b := e.eval(n.Args[0]).one(), e.eval(n.Args[1]).one()
 		if fname == "min" {
